@@ -286,6 +286,15 @@ func (e *Exec) libModel(st *State, callee *ssa.Function, cc *ssa.CallCommon, arg
 		e.store(st, args[0], nv)
 		set(Val{T: tBool, S: ok})
 		return true, true, nil
+	case "(net.IP).IsUnspecified":
+		if e.mode != ModeBV {
+			break
+		}
+		used()
+		e.eng.spec.need(e.sc, "ip_unspec")
+		arr, off, ln := e.sliceArr(st, args[0], tByte)
+		set(Val{T: resT, S: e.sc.define("unspec", "Bool", fmt.Sprintf("(ip_unspec %s %s %s)", arr, off, ln))})
+		return true, true, nil
 	case "sort.Sort", "sort.Stable":
 		// the elements of the sorted slice are permuted (what order results is not modelled).
 		// Which slice: the boxed slice itself, or the one named by `sorts <expr>` in the contract
